@@ -14,24 +14,58 @@ pub open spec fn prefix_is_unknown(p: GuidPrefix) -> bool { forall|i: int| 0 <= 
 
 impl GuidPrefix {
     // re-declared with its real value (`[0x00; 12]` is exec-only in Verus, hence `exec const`)
-    pub exec const UNKNOWN: GuidPrefix ensures prefix_is_unknown(GuidPrefix::UNKNOWN) { GuidPrefix { bytes: [0x00; 12] } }
+    pub exec const UNKNOWN: GuidPrefix ensures forall|p: GuidPrefix| prefix_is_unknown(p) <==> p == GuidPrefix::UNKNOWN {
+        let r = GuidPrefix { bytes: [0x00; 12] };
+        proof { assert forall|p: GuidPrefix| prefix_is_unknown(p) implies p == r by { assert(p.bytes =~= r.bytes); } }
+        r
+    }
 }
 impl EntityKind {
 @@extract const src/structure/guid.rs EntityKind::UNKNOWN_USER_DEFINED
+@@extract const src/structure/guid.rs EntityKind::WRITER_WITH_KEY_USER_DEFINED
+@@extract const src/structure/guid.rs EntityKind::WRITER_NO_KEY_USER_DEFINED
+@@extract const src/structure/guid.rs EntityKind::READER_NO_KEY_USER_DEFINED
+@@extract const src/structure/guid.rs EntityKind::READER_WITH_KEY_USER_DEFINED
+@@extract const src/structure/guid.rs EntityKind::WRITER_GROUP_USER_DEFINED
+@@extract const src/structure/guid.rs EntityKind::READER_GROUP_USER_DEFINED
+@@extract const src/structure/guid.rs EntityKind::UNKNOWN_BUILT_IN
+@@extract const src/structure/guid.rs EntityKind::PARTICIPANT_BUILT_IN
 @@extract const src/structure/guid.rs EntityKind::WRITER_WITH_KEY_BUILT_IN
 @@extract const src/structure/guid.rs EntityKind::WRITER_NO_KEY_BUILT_IN
 @@extract const src/structure/guid.rs EntityKind::READER_NO_KEY_BUILT_IN
 @@extract const src/structure/guid.rs EntityKind::READER_WITH_KEY_BUILT_IN
+@@extract const src/structure/guid.rs EntityKind::WRITER_GROUP_BUILT_IN
+@@extract const src/structure/guid.rs EntityKind::READER_GROUP_BUILT_IN
+@@extract const src/structure/guid.rs EntityKind::MIN
+@@extract const src/structure/guid.rs EntityKind::MAX
 }
 impl EntityId {
     // re-declared with its real value (array repeat expression, see above)
     pub exec const UNKNOWN: EntityId = EntityId { entity_key: [0x00; 3], entity_kind: EntityKind::UNKNOWN_USER_DEFINED };
+@@extract const src/structure/guid.rs EntityId::PARTICIPANT
+@@extract const src/structure/guid.rs EntityId::SEDP_BUILTIN_TOPIC_WRITER
+@@extract const src/structure/guid.rs EntityId::SEDP_BUILTIN_TOPIC_READER
+@@extract const src/structure/guid.rs EntityId::SEDP_BUILTIN_PUBLICATIONS_WRITER
+@@extract const src/structure/guid.rs EntityId::SEDP_BUILTIN_PUBLICATIONS_READER
+@@extract const src/structure/guid.rs EntityId::SEDP_BUILTIN_SUBSCRIPTIONS_WRITER
+@@extract const src/structure/guid.rs EntityId::SEDP_BUILTIN_SUBSCRIPTIONS_READER
 @@extract const src/structure/guid.rs EntityId::SPDP_BUILTIN_PARTICIPANT_WRITER
 @@extract const src/structure/guid.rs EntityId::SPDP_BUILTIN_PARTICIPANT_READER
+@@extract const src/structure/guid.rs EntityId::P2P_BUILTIN_PARTICIPANT_MESSAGE_WRITER
+@@extract const src/structure/guid.rs EntityId::P2P_BUILTIN_PARTICIPANT_MESSAGE_READER
+@@extract const src/structure/guid.rs EntityId::SEDP_BUILTIN_PUBLICATIONS_SECURE_WRITER
+@@extract const src/structure/guid.rs EntityId::SEDP_BUILTIN_PUBLICATIONS_SECURE_READER
+@@extract const src/structure/guid.rs EntityId::SEDP_BUILTIN_SUBSCRIPTIONS_SECURE_WRITER
+@@extract const src/structure/guid.rs EntityId::SEDP_BUILTIN_SUBSCRIPTIONS_SECURE_READER
+@@extract const src/structure/guid.rs EntityId::P2P_BUILTIN_PARTICIPANT_MESSAGE_SECURE_WRITER
+@@extract const src/structure/guid.rs EntityId::P2P_BUILTIN_PARTICIPANT_MESSAGE_SECURE_READER
 @@extract const src/structure/guid.rs EntityId::P2P_BUILTIN_PARTICIPANT_STATELESS_WRITER
 @@extract const src/structure/guid.rs EntityId::P2P_BUILTIN_PARTICIPANT_STATELESS_READER
 @@extract const src/structure/guid.rs EntityId::P2P_BUILTIN_PARTICIPANT_VOLATILE_SECURE_WRITER
 @@extract const src/structure/guid.rs EntityId::P2P_BUILTIN_PARTICIPANT_VOLATILE_SECURE_READER
+@@extract const src/structure/guid.rs EntityId::SPDP_RELIABLE_BUILTIN_PARTICIPANT_SECURE_WRITER
+@@extract const src/structure/guid.rs EntityId::SPDP_RELIABLE_BUILTIN_PARTICIPANT_SECURE_READER
+@@extract const src/structure/guid.rs EntityId::MAX
 }
 
 // The three bootstrap topics DDS Security 8.4.2.4 (table 27) exempts from RTPS protection:
@@ -91,7 +125,16 @@ impl Default for ParameterList { #[verifier::external_body] fn default() -> Para
 #[verifier::external_body] pub struct SecureRTPSPrefix { p: u8 }
 #[verifier::external_body] pub struct SecureRTPSPostfix { p: u8 }
 #[verifier::external_body] pub struct SubmessageHeader { p: u8 }
-#[verifier::external_body] pub struct Header { p: u8 }
+@@extract struct src/messages/protocol_version.rs ProtocolVersion derive=Clone,Copy
+impl ProtocolVersion {
+@@extract const src/messages/protocol_version.rs ProtocolVersion::PROTOCOLVERSION_2_4
+@@extract const src/messages/protocol_version.rs ProtocolVersion::THIS_IMPLEMENTATION
+}
+@@extract struct src/messages/vendor_id.rs VendorId derive=Clone,Copy
+impl VendorId {
+@@extract const src/messages/vendor_id.rs VendorId::VENDOR_UNKNOWN
+}
+@@extract struct src/messages/header.rs Header keep=protocol_version,vendor_id,guid_prefix
 impl Clone for SecurePrefix { #[verifier::external_body] fn clone(&self) -> (r: SecurePrefix) ensures r == *self { unimplemented!() } }
 impl Clone for SecurePostfix { #[verifier::external_body] fn clone(&self) -> (r: SecurePostfix) ensures r == *self { unimplemented!() } }
 
@@ -175,14 +218,16 @@ impl AckSubmessage {
     }
 }
 
+pub proof fn lemma_u16_mul_fits(a: u16, b: u16)
+    ensures 0 <= (a as int) * (b as int) <= 0xFFFF_FFFF
+{ assert(0 <= (a as int) * (b as int) <= 0xFFFF_FFFF) by (nonlinear_arith) requires 0 <= a <= 0xFFFF, 0 <= b <= 0xFFFF; }
+
 // ---- std helpers without a vstd specification -------------------------------------------------
 pub assume_specification<T, E>[ Option::<Result<T, E>>::transpose ](o: Option<Result<T, E>>) -> (r: Result<Option<T>, E>)
     ensures
         o is None ==> r == Ok::<Option<T>, E>(None),
         o matches Some(Ok(t)) ==> r == Ok::<Option<T>, E>(Some(t)),
         o matches Some(Err(e)) ==> r == Err::<Option<T>, E>(e);
-pub assume_specification<T: Default>[ Option::<T>::unwrap_or_default ](o: Option<T>) -> (r: T)
-    ensures o matches Some(t) ==> r == t;
 
 // std::collections::HashSet restricted to contains/insert (assumed contract, model = Set<T>)
 #[verifier::external_body]
